@@ -11,6 +11,7 @@ import (
 	"bytes"
 	"encoding/binary"
 	"fmt"
+	"io"
 	"testing"
 
 	"github.com/datastax/go-cassandra-native-protocol/compression/lz4"
@@ -132,8 +133,11 @@ func c08Property(rt *rapid.T) {
 	if rerr != nil || !bytes.Equal(refOut, x) {
 		rt.Fatalf("%s: the compressed form does not expand to the input per the independent decoder (err=%v, %d bytes)", desc(), rerr, len(refOut))
 	}
-	// library round trip
-	in := bytes.NewBuffer(append([]byte{}, c...))
+	// library round trip (the source is sometimes a reader with short reads, like a network connection)
+	var in io.Reader = bytes.NewBuffer(append([]byte{}, c...))
+	if rapid.IntRange(0, 2).Draw(rt, "shortReads") == 0 {
+		in = &chunkReader{r: bytes.NewReader(c), chunks: drawChunks(rt)}
+	}
 	switch format {
 	case "lz4-raw":
 		err = lz4.Compressor{}.Decompress(in, &back)
@@ -162,7 +166,10 @@ func c08Property(rt *rapid.T) {
 	}
 	for i, fb := range foreign {
 		var out bytes.Buffer
-		fin := bytes.NewBuffer(append([]byte{}, fb...))
+		var fin io.Reader = bytes.NewBuffer(append([]byte{}, fb...))
+		if rapid.IntRange(0, 2).Draw(rt, fmt.Sprintf("shortReads%d", i)) == 0 {
+			fin = &chunkReader{r: bytes.NewReader(fb), chunks: drawChunks(rt)}
+		}
 		switch format {
 		case "lz4-raw":
 			err = lz4.Compressor{}.Decompress(fin, &out)
